@@ -360,57 +360,60 @@ def finalDefault (isFunctionProp : Bool) (dflt : Node) (isFactory : Bool) : Node
 /-- the list written into `type:` — `any` / `unknown` anywhere means no check at all (`type: null`) -/
 def emittedTypes (types : List RT) : List RT := if types.contains (some ANY_TYPE) then [none] else types
 
+/-- one resolved member folded into the prop table (`build_props_type`, first half) -/
+def propStep (acc : List PropIr × St) (m : Node) : List PropIr × St :=
+  let (irs, st) := acc
+  match m with
+  | .mk .tsPropSig [_, comp, opt] [key, ann] =>
+    let (pname, st) := extractPropName key (comp == "true") st
+    let (types, st) :=
+      match typeAnnInner ann with
+      | some t => inferRuntime FUEL st t
+      | none => ([some ANY_TYPE], st)          -- no annotation: implicitly `any`
+    let optional := opt == "true"
+    (irUpdate irs pname
+      (fun ir => { ir with required := if optional then false else ir.required, types := rtExtend ir.types types })
+      { key := pname, types := types, required := !optional }, st)
+  | .mk .tsGetterSig [comp] [key, ann] =>
+    let (pname, st) := extractPropName key (comp == "true") st
+    let (types, st) :=
+      match typeAnnInner ann with
+      | some t => inferRuntime FUEL st t
+      | none => ([some ANY_TYPE], st)
+    (irUpdate irs pname (fun ir => { ir with types := rtExtend ir.types types })
+      { key := pname, types := types, required := true }, st)
+  | .mk .tsMethodSig [comp, opt] (key :: _) =>
+    let (pname, st) := extractPropName key (comp == "true") st
+    let optional := opt == "true"
+    (irUpdate irs pname
+      (fun ir => { ir with required := if optional then false else ir.required,
+                           types := rtInsert (some "Function") ir.types })
+      { key := pname, types := [some "Function"], required := !optional }, st)
+  | _ => (irs, st)
+
+/-- one entry of the emitted props object (`build_props_type`, second half) -/
+def emitProp (defaults : Option (List (Node × Node × Bool))) (ir : PropIr) : Node :=
+  let types := emittedTypes ir.types
+  let isFunctionProp := types.contains (some "Function")
+  let tyExpr :=
+    match types with
+    | [t] => rtExpr t
+    | ts => nArray (ts.map fun t => nArg (rtExpr t))
+  let inner := [nKV (nIdentName "type") tyExpr, nKV (nIdentName "required") (nBool ir.required)]
+  let inner :=
+    match defaults with
+    | some ds =>
+      match ds.find? (fun d => defaultMatches d.1 ir.key) with
+      | some (_, dflt, isFactory) => inner ++ [nKV (nIdentName "default") (finalDefault isFunctionProp dflt isFactory)]
+      | none => inner
+    | none => inner
+  nKV ir.key (nObject inner)
+
 /-- `build_props_type(type_ann, defaults)`; `ty` is the annotated type -/
 def buildPropsType (st : St) (ty : Node) (defaults : Option (List (Node × Node × Bool))) : Node × St :=
   let (elems, st) := resolveElements FUEL st ty
-  let (irs, st) := elems.foldl (fun (acc : List PropIr × St) m =>
-    let (irs, st) := acc
-    match m with
-    | .mk .tsPropSig [_, comp, opt] [key, ann] =>
-      let (pname, st) := extractPropName key (comp == "true") st
-      let (types, st) :=
-        match typeAnnInner ann with
-        | some t => inferRuntime FUEL st t
-        | none => ([some ANY_TYPE], st)          -- no annotation: implicitly `any`
-      let optional := opt == "true"
-      (irUpdate irs pname
-        (fun ir => { ir with required := if optional then false else ir.required, types := rtExtend ir.types types })
-        { key := pname, types := types, required := !optional }, st)
-    | .mk .tsGetterSig [comp] [key, ann] =>
-      let (pname, st) := extractPropName key (comp == "true") st
-      let (types, st) :=
-        match typeAnnInner ann with
-        | some t => inferRuntime FUEL st t
-        | none => ([some ANY_TYPE], st)
-      (irUpdate irs pname (fun ir => { ir with types := rtExtend ir.types types })
-        { key := pname, types := types, required := true }, st)
-    | .mk .tsMethodSig [comp, opt] (key :: _) =>
-      let (pname, st) := extractPropName key (comp == "true") st
-      let optional := opt == "true"
-      (irUpdate irs pname
-        (fun ir => { ir with required := if optional then false else ir.required,
-                             types := rtInsert (some "Function") ir.types })
-        { key := pname, types := [some "Function"], required := !optional }, st)
-    | _ => (irs, st)) ([], st)
-  let props := irs.map fun ir =>
-    let types := emittedTypes ir.types
-    let isFunctionProp := types.contains (some "Function")
-    let tyExpr :=
-      match types with
-      | [t] => rtExpr t
-      | ts => nArray (ts.map fun t => nArg (rtExpr t))
-    let inner := [nKV (nIdentName "type") tyExpr, nKV (nIdentName "required") (nBool ir.required)]
-    let inner :=
-      match defaults with
-      | some ds =>
-        match ds.find? (fun d => defaultMatches d.1 ir.key) with
-        | some (_, dflt, isFactory) =>
-          let dflt := finalDefault isFunctionProp dflt isFactory
-          inner ++ [nKV (nIdentName "default") dflt]
-        | none => inner
-      | none => inner
-    nKV ir.key (nObject inner)
-  (nObject props, st)
+  let (irs, st) := elems.foldl propStep ([], st)
+  (nObject (irs.map (emitProp defaults)), st)
 
 /-! ### defaults -/
 
